@@ -39,7 +39,7 @@ def entryFrame (kv : Nat × Nat) : Bytes := frame (1 :: (be 8 kv.1 ++ be 8 kv.2)
 
 /-- `fsIndex.save(pos, fname)`: `dump(pos)`, one dump per entry, `dump(None)` -/
 def saveBytes (pos : Nat) (ix : Index) : Bytes :=
-  frame (0 :: be 8 pos) ++ (ix.flatMap entryFrame ++ frame [2])
+  frame (0 :: be 9 pos) ++ (ix.flatMap entryFrame ++ frame [2])
 
 def loadEntries : Nat → Bytes → Option Index
   | 0, _ => none
@@ -59,7 +59,7 @@ def loadEntries : Nat → Bytes → Option Index
 def loadIndex (b : Bytes) : Option (Nat × Index) :=
   match readFrame b with
   | some (0 :: p, rest) =>
-    if p.length = 8 then (loadEntries (rest.length + 1) rest).map (beVal p, ·) else none
+    if p.length = 9 then (loadEntries (rest.length + 1) rest).map (beVal p, ·) else none
   | _ => none
 
 /-! ### `_check_sanity` -/
